@@ -10,6 +10,7 @@ A *scenario* is a JSON-able dict describing one complete use of a miasm jitter:
      "log_mn": False,                       # jitter.jit.log_mn: executed-instruction trace, captured at fd level
      "exec_cb": False | True | "regs" | "retranslate",   # exec_cb hook: record jitter.pc (and get_gpreg()) at every
                                             # runiter_once / or call jit.clear_jitted_blocks() there (no event)
+     "step_limit": None | int,              # exec_cb stops the run ("step-limit") after that many runiter_once rounds
      "purge_disk_cache": False,             # empty $TMPDIR/miasm_cache first (gcc backend)
      "script": [op, ...]}
 
@@ -32,6 +33,8 @@ Script ops (lists), executed in order inside the worker:
     ["set_u", bits, addr, value]  jitter.vm.set_u8/16/32/64
     ["snap", label]               -> event "snap" with the full observable state
     ["disasm", addr]              -> event ["disasm", addr, text] (naming a culprit instruction in a bucket key)
+    ["insn_info", [addrs]]        -> event ["insn_info", {addr: [length, delayslot, breakflow, text] | None}] (used by
+                                  harnesses only to *restrict* candidate addresses, never as an oracle)
 Breakpoint callback spec (dict): "ret": "true" (default) | "false" | "none" | any int/str returned as is;
     "stop": true -> jitter.running = False (the sentinel idiom of miasm's own tests);
     "ret_at": {"<k>": value}  value returned on the k-th hit (1-based) instead of "ret";
@@ -329,7 +332,8 @@ def assemble(arch, text, addr):
     loc_db = LocationDB()
     asmcfg = parse_asm.parse_txt(m.mn, m.dis_engine.attrib, text, loc_db)
     loc_db.set_location_offset(loc_db.get_name_location("main"), addr)
-    patches = asmblock.asm_resolve_final(m.mn, asmcfg)
+    from miasm.core.interval import interval
+    patches = asmblock.asm_resolve_final(m.mn, asmcfg, dst_interval=interval([(addr, addr + 0x400)]))
     lo = min(patches)
     hi = max(o + len(b) for o, b in patches.items())
     buf = bytearray(hi - lo)
@@ -500,6 +504,10 @@ def _worker_main():
     os.dup2(efd, 2)
     import ctypes
     libc = ctypes.CDLL(None)
+    try:
+        libc.prctl(1, 9)        # PR_SET_PDEATHSIG, SIGKILL: never outlive the harness process
+    except Exception:
+        pass
     w = Worker(tfd, efd, libc)
     stdin = sys.stdin.buffer
     while True:
@@ -582,12 +590,20 @@ class Worker(object):
             jitter.jit.set_options(**scn["options"])
         if self.log_mn:
             jitter.jit.log_mn = True
-        if scn.get("exec_cb"):
-            with_regs = scn["exec_cb"] == "regs"
-
-            retrans = scn["exec_cb"] == "retranslate"
+        if scn.get("exec_cb") or scn.get("step_limit"):
+            with_regs = scn.get("exec_cb") == "regs"
+            retrans = scn.get("exec_cb") == "retranslate"
+            quiet = not scn.get("exec_cb")
+            limit = scn.get("step_limit")
+            steps = [0]
 
             def ecb(jj):
+                steps[0] += 1
+                if limit and steps[0] > limit:
+                    jj.running = False
+                    return "step-limit"
+                if quiet:
+                    return True
                 if retrans:
                     jj.jit.clear_jitted_blocks()
                     return True
@@ -700,6 +716,15 @@ class Worker(object):
                 setattr(j.cpu, k, v)
         elif name == "snap":
             self.events.append(["snap", op[1], self.snap()])
+        elif name == "insn_info":
+            info = {}
+            for a in op[1]:
+                try:
+                    ins = j.jit.mdis.dis_instr(a)
+                    info[str(a)] = [ins.l, int(getattr(ins, "delayslot", 0) or 0), bool(ins.breakflow()), str(ins)]
+                except Exception as e:
+                    info[str(a)] = None
+            self.events.append(["insn_info", info])
         elif name == "disasm":
             try:
                 txt = str(j.jit.mdis.dis_instr(op[1]))
